@@ -1,6 +1,10 @@
 package xixi_kv
 
-import "strings"
+import (
+	"strings"
+
+	"github.com/XiXi-2024/xixi-kv/index"
+)
 
 // vOnlyLockFileTouched: the FS op log since op index `from` shows no mutating operation on anything but the lock file.
 func vOnlyLockFileTouched(from int, id string) {
@@ -42,7 +46,29 @@ func verifHarnessC16() {
 	vOnlyLockFileTouched(from, "C16.rejected-open-touched-directory")
 	verifAssert(a.Put(kp.keys[0], []byte{2}) == nil, "C16.put2-err")
 	verifAssert(a.Close() == nil, "C16.close-err")
-	switch verifChoice("scenario", 4) {
+	switch verifChoice("scenario", 5) {
+	case 4:
+		// an Open that leaves by a PANIC after the lock is taken (an IndexType the index constructor rejects) is a
+		// failed Open too: "every exit path of Open" releases the lock
+		bad := opts
+		bad.IndexType = index.IndexType(99)
+		func() {
+			defer func() {
+				if recover() != nil {
+					verifReach("open-panicked")
+				}
+			}()
+			x, err := Open(bad)
+			if err == nil {
+				verifAssert(x.Close() == nil, "C16.close-bad-err")
+			}
+		}()
+		c, err := Open(opts)
+		if err != nil {
+			verifNote("err", err)
+		}
+		verifAssert(err == nil, "C16.lock-kept-by-panicking-open")
+		verifAssert(c.Close() == nil, "C16.close8-err")
 	case 3:
 		// a stale handle closed again while a newer handle owns the directory must not let a third one in
 		b2, err := Open(opts)
